@@ -1,9 +1,9 @@
 (* Property C10 — Component functions partition the nodes by the right reachability relation.
    This file contains only the pinned statements; proofs live in Proofs/.  The statements are
    repeated in coq/pins/C10.v and re-checked on every run. *)
-From Coq Require Import List Bool.
+From Coq Require Import List Bool Arith.
 From GV Require Import Base.Outcome Base.AMap Model.GState Model.Creation Model.Query
-     Model.Components Model.Scc Spec.ReachDef Spec.CompSpec Proofs.ReachOk Proofs.ComponentsOk.
+     Model.Components Model.Scc Spec.ReachDef Spec.CompSpec Proofs.ReachOk Proofs.ComponentsOk Proofs.PartitionsOk.
 Import ListNotations.
 
 Section C10.
@@ -90,4 +90,24 @@ Section C10.
        weakly_connected_components teqb g = Err WrongMethod /\
        forall ord, strongly_connected_components teqb ord g = Err WrongMethod).
   Proof. exact (wrong_kind teqb). Qed.
+  (* bfs_equal_size_partitions(k), for every run that returns: k >= 1, and the parts are the
+     names of k index lists in which every node index 0..n-1 occurs exactly once and none is
+     longer than n/k + 1 *)
+  Theorem C10_equal_size : forall (g : gstate) k ps,
+    bfs_equal_size_partitions g k = Ok ps ->
+    1 <= k /\
+    exists idx : list (list nat),
+      Forall2 (fun ip p => names_of_indexes g ip = Ok p) idx ps /\
+      length idx = k /\
+      Forall (fun p => length p <= number_of_nodes g / k + 1) idx /\
+      NoDup (concat idx) /\
+      (forall i, In i (concat idx) <-> i < number_of_nodes g).
+  Proof. exact (equal_size_indexes (T:=T) (A:=A)). Qed.
+
+  Theorem C10_equal_size_shape : forall (g : gstate) k ps,
+    bfs_equal_size_partitions g k = Ok ps ->
+    length ps = k /\
+    Forall (fun p => length p <= number_of_nodes g / k + 1) ps /\
+    length (concat ps) = number_of_nodes g.
+  Proof. exact (equal_size_shape (T:=T) (A:=A)). Qed.
 End C10.
